@@ -625,10 +625,13 @@ package quickfix
 //@   ensures msgsafe(msg)
 //@   ensures s.application.#n == old(s.application.#n)
 
+// replaying flushes the whole send queue (EnqueueBytesAndSend -> sendQueued): that is only harmless while logged on,
+// or when nothing is queued; otherwise queued first-time application messages would go out (C08) - clause @flush
 // resendMessages (the replay loop with its store callback, message re-parsing and gap fills) is outside what the
 // engine verifies: the handlers rely on this stated, unverified contract (listed as an assumption in the evidence)
 //@ func (state inSession) resendMessages [C03]
 //@   trusted
+//@   requires [C08] @flush !stnotlogged(session.State) || len(session.toSend) == 0
 //@   requires @sess sessfull(session)
 //@   ensures @sess sessfull(session) && session.State == old(session.State)
 //@   ensures @store session.store.#T == old(session.store.#T) && session.store.#R == old(session.store.#R)
@@ -636,6 +639,7 @@ package quickfix
 //@   modifies heap Gh.chan.sent, session.toSend, session.toSend[*], fresh E.sl.uint8, session.store.#S, heap E.quickfix.Tag, heap H.quickfix.TagValue.*, heap E.uint8, fresh H.quickfix.Message.*, fresh H.quickfix.FieldMap.*, fresh H.quickfix.tagSort.*, fresh MH.quickfix.Tag.quickfix.field, fresh H.bytes.Buffer.*
 
 //@ func (state inSession) handleResendRequest [C01,C03,C06]
+//@   requires [C08] @flush !stnotlogged(session.State) || len(session.toSend) == 0
 //@   requires @sess sessfull(session)
 //@   requires @bound session.store.#T < MaxInt64
 //@   requires @msg msgok(msg)
@@ -701,6 +705,7 @@ package quickfix
 //@   ensures @msgtrl fmvals(msg.Trailer.FieldMap)
 
 //@ func (state inSession) FixMsgIn [C01,C04,C06,C07,C08,C20]
+//@   requires [C08] @flush !stnotlogged(session.State) || len(session.toSend) == 0
 //@   requires @sess sessfull(session)
 //@   requires @bound session.store.#T < MaxInt64
 //@   requires @msg msgok(msg)
